@@ -107,6 +107,13 @@ func c17(c *Ctx) {
 				if !isDir {
 					name += []string{".txt", ".go", ""}[r.Intn(3)]
 				}
+				if len(kids) > 0 && r.Chance(1, 4) {
+					// a look-alike sibling: an earlier sibling's name is a proper string prefix of this one
+					name = filepath.Base(kids[r.Intn(len(kids))].path) + []string{"2", "-assets", ".tmpl", "x"}[r.Intn(4)]
+					if _, err := os.Lstat(filepath.Join(dir, name)); err == nil {
+						name += fmt.Sprint(i)
+					}
+				}
 				p := filepath.Join(dir, name)
 				n := &node{path: p, isDir: isDir}
 				if isDir {
